@@ -753,7 +753,7 @@ def check(case, ctx):
 
 
 # ---------------------------------------------------------------------------------------------
-_W = (["add"] * 6 + ["delete"] * 5 + ["flush"] * 6 + ["commit"] * 2 + ["rollback"] * 3 + ["begin_nested"] * 2 + ["nested_commit"] + ["nested_rollback"] * 2
+_W = (["add"] * 6 + ["delete"] * 3 + ["flush"] * 5 + ["commit"] * 3 + ["rollback"] * 7 + ["begin_nested"] * 3 + ["nested_commit"] + ["nested_rollback"] * 4
       + ["expunge"] * 2 + ["expunge_all", "close"] + ["merge"] * 2 + ["make_transient", "mttd", "get", "get", "new"])
 
 
@@ -769,9 +769,17 @@ _PREFIXES = [
 def _programs(draw):
     nsess = draw(st.sampled_from([1, 1, 2]))
     sess_ix = st.integers(0, 1) if nsess == 2 else st.just(0)
-    ops = draw(st.lists(st.tuples(st.sampled_from(_W), st.integers(0, 11), sess_ix, st.integers(0, 1), st.sampled_from([0, 1, 1, 1])), min_size=4, max_size=36))
+    raw = draw(st.lists(st.tuples(st.sampled_from(_W + ["delete_flush"] * 4 + ["add_flush"] * 2), st.integers(0, 11), sess_ix, st.integers(0, 1), st.sampled_from([0, 1, 1, 1])),
+                        min_size=4, max_size=30))
+    ops = []
+    for o in raw:
+        if o[0] in ("delete_flush", "add_flush"):  # macro: the request followed by the flush that realises it
+            ops.append([o[0].split("_")[0]] + list(o[1:]))
+            ops.append(["flush", 0, o[2], 0, 0])
+        else:
+            ops.append(list(o))
     prefix = draw(st.sampled_from(_PREFIXES))
-    return {"nsess": nsess, "eoc": draw(st.sampled_from([True, True, False])), "nobj": draw(st.integers(1, 4)), "ops": [list(o) for o in prefix] + [list(o) for o in ops]}
+    return {"nsess": nsess, "eoc": draw(st.sampled_from([True, True, False])), "nobj": draw(st.integers(1, 3)), "ops": [list(o) for o in prefix] + ops[:40]}
 
 
 def subs(tier):
